@@ -487,25 +487,33 @@ def sparse_indexed_files(rng: random.Random, n: int) -> List[Tuple[str, bytes, b
                 packets.append((skip, [(rng.randrange(64), rng.randrange(64), rng.randrange(64)) for _ in range(cnt)]))
             chunks.append(ase.OldPaletteChunk(kind=rng.choice([ase.CT_OLD_PALETTE_04, ase.CT_OLD_PALETTE_11]), packets=packets))
         if kind in ("new", "both"):
-            first = rng.choice([0, 1, 3, 200])
-            cnt = rng.randint(1, 5)
+            first = rng.choice([0, 1, 3, 200, 250, 257, 1000])
+            cnt = rng.randint(1, 5) if first < 250 else rng.choice([3, 11, 20])      # ranges that reach past index 255
             if kind == "new":
                 present = set(range(first, first + cnt))
             else:
                 present = set(range(first, first + cnt)) if rng.random() < 2 else present   # the new palette replaces the legacy one
             chunks.append(ase.PaletteChunk(first=first, entries=[(rng.randrange(256), rng.randrange(256), rng.randrange(256), 255)] * cnt))
         hi = max(present)
-        holes = [x for x in range(0, hi) if x not in present]
-        cands = sorted(present)
-        where = rng.choice(["ok", "hole", "beyond", "top", "ok"])
+        holes = [x for x in range(0, min(hi, 256)) if x not in present]
+        cands = sorted(k for k in present if k < 256)
+        where = rng.choice(["ok", "hole", "beyond", "top", "ok", "alias"])
         if where == "hole" and holes:
             bad = rng.choice(holes)
         elif where == "beyond":
             bad = rng.choice([hi + 1, len(present), 255])
-            bad = bad if bad not in present else None
+            bad = bad if bad not in present and bad < 256 else None
+        elif where == "alias":
+            # an absent index p for which p + 256 k is present (a table of 256 slots filled with `id as u8` would find it)
+            al = [k & 255 for k in present if k >= 256 and (k & 255) not in present]
+            bad = rng.choice(al) if al else None
         else:
             bad = None
-        good = hi if where == "top" else rng.choice(cands)
+        if not cands:
+            # every entry lies beyond 255: no pixel value is present at all
+            bad = bad if bad is not None else rng.randrange(256)
+            cands = [bad]
+        good = max(cands) if where == "top" else rng.choice(cands)
         px = [good if bad is None or k != 2 else bad for k in range(4)]
         place = rng.choice(["raw", "zlib", "tileset"])
         if place == "tileset":
@@ -515,7 +523,16 @@ def sparse_indexed_files(rng: random.Random, n: int) -> List[Tuple[str, bytes, b
         else:
             chunks.append(ase.LayerChunk(flags=rng.choice([1, 9])))
             chunks.append(ase.CelChunk(layer=0, w=2, h=2, pixels=bytes(px), ctype_cel=0 if place == "raw" else 2))
-        data = ase.serialize(ase.Sprite(width=4, height=2, depth=8, transparent=rng.choice([0, good, 77]), frames=[ase.Frame(chunks=chunks)]))
+        if rng.random() < 0.25 and kind == "new":
+            # the palette chunk AFTER the cel that uses it (and a short legacy palette before it, half of the time): pixels are checked
+            # against the palette in effect at the end of the file
+            pc = next(c for c in chunks if isinstance(c, ase.PaletteChunk))
+            chunks.remove(pc)
+            chunks.append(pc)
+            if rng.random() < 0.5:
+                chunks.insert(0, ase.OldPaletteChunk(kind=ase.CT_OLD_PALETTE_04, packets=[(0, [(1, 2, 3)])]))
+        data = ase.serialize(ase.Sprite(width=4, height=2, depth=8, transparent=rng.choice([0, good, 77] + ([bad, bad] if bad is not None else [])),
+                                        frames=[ase.Frame(chunks=chunks)]))
         out.append(("sparse palette %s present=%s pixel=%s in %s" % (kind, sorted(present)[:8], bad if bad is not None else good, place), data, bad is None))
     return out
 
@@ -1020,7 +1037,7 @@ def images_of(block, kind: int) -> Dict[tuple, List[int]]:
 def run_sprites(prop: str, tier: str, seed: int, level: int, nq: int, nt: int, genkw: dict, kinds,
                 direct: Callable[[dict, bytes, object], List[str]], rule: str, expected: List[str],
                 profiles=("release",), extra_cases: Optional[Callable] = None, include_corpus=True,
-                max_frames=None, max_layers=None, compose: bool = False) -> int:
+                max_frames=None, max_layers=None, compose: bool = False, extra_direct: Optional[Callable] = None) -> int:
     v = Verdict(prop, tier, seed, "proof")
     ob = vplib.check_obligations(prop, expected=expected, extra_files=["C02_e2e"] if prop == "C02" else ())
     vplib.build_harness(list(profiles))
@@ -1078,6 +1095,8 @@ def run_sprites(prop: str, tier: str, seed: int, level: int, nq: int, nt: int, g
                     continue
                 for msg in direct(s, data, ib[i]):
                     direct_fail.append({"what": msg, "sprite": gen.describe(s), "_data": data})
+        if extra_direct:
+            direct_fail += extra_direct(w)
         # the generated sprites once more, all on ONE thread of ONE driver process, in list order (twins - same structure, other
         # pixel values - sit next to each other): a result must not depend on what was loaded or rendered before
         # ... nor on an input that was REFUSED before it: every 12th position of the list gets a file that fails inside inflate
@@ -1224,6 +1243,25 @@ def direct_C06(s, data, blk) -> List[str]:
     return out[:3]
 
 
+def large_uniform_cels(w: Work) -> List[dict]:
+    """a 1024 x 1024 RGBA cel of one colour with three marker pixels (4 MB decoded; deflate packs it about 1020 : 1), stored raw and
+    compressed at levels 1 / 6 / 9: every storage must load and give the same cel image (implementation only, images as digests)"""
+    px = bytearray(bytes([200, 60, 20, 255]) * (1024 * 1024))
+    for k, pos in enumerate((0, 1024 * 517 + 333, 1024 * 1024 - 1)):
+        px[4 * pos:4 * pos + 4] = bytes([k + 1, 2, 3, 255])
+    files = []
+    for tag, ct, zl_ in (("raw", 0, 0), ("zlib level 1", 2, 1), ("zlib level 6", 2, 6), ("zlib level 9", 2, 9)):
+        fr = ase.Frame(chunks=[ase.LayerChunk(name="u"), ase.CelChunk(layer=0, x=-3, y=2, w=1024, h=1024, pixels=bytes(px), ctype_cel=ct, zlevel=zl_)])
+        files.append((tag, w.put(ase.serialize(ase.Sprite(width=1030, height=1030, frames=[fr])))))
+    ub = vplib.impl_observe("release", [p_ for _, p_ in files], w.dir, 5, extra_env={"VERIF_IMAGE_DIGEST": "65536"}, mem_kb=6000000, shards=4, tag="uniform")
+    out = []
+    for (tag, p_), b in zip(files, ub):
+        if b is None or outcome(b) != 0 or ub[0] is None or b[0] != ub[0][0]:
+            out.append({"what": "a well-formed 1024 x 1024 cel stored as '%s' does not load / decode like the same cel stored raw" % tag,
+                        "outcome": outcome(b), "comments": b[1][:3] if b else None})
+    return out
+
+
 def check_C06(tier, seed):
     return run_sprites("C06", tier, seed, 4, 300, 4000, dict(max_canvas=8, max_layers=5, max_frames=3, rich=False), [1, 23, 24, 6, 7],
                        direct_C06,
@@ -1231,7 +1269,7 @@ def check_C06(tier, seed):
                        "zlib storage, sparse palettes with alpha < 255, linked cels, tilemap cels) + corpus; model cel observations = implementation; "
                        "direct: every cel's image equals the stored pixels at the offset with alpha scaled by mul_un8(layer, cel) computed "
                        "independently in Python; emptiness/offset/tilemap-ness as encoded",
-                       ["C06_empty", "C06_linked", "C06_cel_pixels", "C06_cel_pixels_loaded"], max_frames=4, max_layers=6)
+                       ["C06_empty", "C06_linked", "C06_cel_pixels", "C06_cel_pixels_loaded"], max_frames=4, max_layers=6, extra_direct=large_uniform_cels)
 
 
 # ==========================================================================
@@ -2500,7 +2538,17 @@ def check_C07(tier: str, seed: int) -> int:
                 big.add(len(paths))
                 paths.append(w.put(data))
             groups.append((s, enc))
-        ib = vplib.impl_observe("release", paths, w.dir, 15, max_frames=4, max_layers=6)
+        # between the encodings: files that are refused inside the inflate step (each shard of the run loads its inputs one after the
+        # other on one thread): a compressed encoding must not fare worse than a raw one because of what was refused before it
+        poison = [w.put(d) for d in poison_files()]
+        obs_paths, pos = [], []
+        for i, pth in enumerate(paths):
+            if i % 5 == 2:
+                obs_paths.append(poison[(i // 5) % len(poison)])
+            pos.append(len(obs_paths))
+            obs_paths.append(pth)
+        ib_all = vplib.impl_observe("release", obs_paths, w.dir, 15, max_frames=4, max_layers=6)
+        ib = [ib_all[k] for k in pos]
         small = list(range(len(paths)))        # (the model handles 65535-chunk frames in well under a second since frev)
         mres = vplib.model_observe([paths[i] for i in small], w.dir, 15, max_frames=4, max_layers=6)
         mb = list(ib)
